@@ -15,7 +15,7 @@
   rounded difference overflowed) or NaN (explicit constructor).
 -/
 import FcModel.Mesh
-namespace Fc
+namespace Fc.C14
 
 /-! ### output values -/
 
@@ -281,4 +281,4 @@ def writeDiff (sortF : MeshFields → MeshFields) (meshEq : MeshFields → MeshF
   let p := writeDiffInputs sortF meshEq disableReordering res ref
   meshDiffTo (meshEq p.2 p.1) p.1 p.2
 
-end Fc
+end Fc.C14
